@@ -302,6 +302,8 @@ class Gen:
             if env.ptrs:
                 self.tag("null-compare")
                 lhs = [Lx(d.choice(env.ptrs), "id")] if d.bool(0.8) else self.pointer_cast(env, 0, allow_call=False)
+                if self.width(lhs) > 24:
+                    lhs = [Lx(d.choice(env.ptrs), "id")]
                 return [Lx("(", "par")] + lhs + [SP(), Lx(d.choice(["==", "!="]), "op", ("binop",)), SP(),
                                                   Lx("NULL", "kw"), Lx(")", "par")]
             return self.constant(True)
@@ -418,7 +420,9 @@ class Gen:
         d = self.d
         k = d.weighted([(8, "expr"), (2, "str"), (1, "null"), (1, "addr"), (2, "ptrcast")])
         if k == "ptrcast":
-            return self.pointer_cast(env, depth, allow_call=depth > 0)
+            pc = self.pointer_cast(env, depth, allow_call=False)
+            if self.width(pc) <= 26:
+                return pc
         if k == "str":
             return self.string_const()
         if k == "null":
@@ -814,6 +818,8 @@ class Gen:
                     size = [Lx("'z'", "chr"), SP(), Lx("-", "op", ("binop", "binop:-")), SP(), Lx("'a'", "chr"), SP(), Lx("+", "op", ("binop", "binop:+")), SP(),
                             Lx("1", "num", ("const:dec",))]
                     self.tag("decl:array-size-with-char-constants")
+                elif d.bool(0.12):
+                    size = self.group_size()
                 dec = [Lx(name, "id", ("decl-name",)), Lx("[", "br")] + size + [Lx("]", "br")]
                 ty = d.choice(["char", "int", "long"])
                 if d.bool(0.15):
@@ -866,6 +872,17 @@ class Gen:
                             [Lx(name, "id", ("decl-name",)), SP(), Lx("=", "op", ("asgop", "init")), SP()] + self.constant()))
                 self.tag("decl:const-init")
         return out
+
+    def group_size(self):
+        """an array size that begins with a parenthesised group or a cast: [(N + 1) * 2]  [(N + 1) & 7]  [(int)sizeof(int) * 2]"""
+        d = self.d
+        n = [Lx(d.choice(self.macros), "id", ("macro",))] if self.macros and d.bool(0.6) else [Lx(str(d.int(1, 64)), "num", ("const:dec",))]
+        op = d.choice(["*", "&", "+", "<<"])
+        tail = [SP(), Lx(op, "op", ("binop", "binop:" + op)), SP(), Lx(str(d.int(1, 9)), "num", ("const:dec",))]
+        self.tag("array-size:group-first")
+        if d.bool(0.3):
+            return [Lx("(", "par", ("cast-open",)), Lx("int", "kw"), Lx(")", "par", ("cast-close",)), Lx("sizeof", "kw"), Lx("(", "par"), Lx("int", "kw"), Lx(")", "par")] + tail
+        return [Lx("(", "par")] + n + [SP(), Lx("+", "op", ("binop", "binop:+")), SP(), Lx("1", "num", ("const:dec",)), Lx(")", "par")] + tail
 
     def struct_type(self):
         d = self.d
@@ -1138,7 +1155,7 @@ class Gen:
         for _ in range(n):
             name = self.fresh("glob", prefix="g_", lo=2, hi=8)
             q = d.weighted([(3, "static "), (2, "const "), (2, "static const "), (1, "")])
-            k = d.weighted([(10, "int"), (4, "str"), (4, "array"), (2, "sized-array"), (2, "fptr"), (1, "str-array"), (1, "designated"), (1, "array2d-init"), (1, "sizeof-div")])
+            k = d.weighted([(10, "int"), (4, "str"), (4, "array"), (2, "sized-array"), (2, "fptr"), (1, "str-array"), (1, "designated"), (1, "array2d-init"), (1, "sizeof-div"), (1, "utype-qualified")])
             if k == "str-array":
                 ty = "static const char" if "static" in q or d.bool() else "const char"
                 vals = []
@@ -1158,6 +1175,18 @@ class Gen:
                         (self.string_const(6) + ([SP()] + self.string_const(4) if d.bool(0.3) else []) if d.bool() else self.constant(True))
                 dec += [Lx("}", "brace", ("init-brace",))]
                 self.tag("global:designated-init")
+            elif k == "utype-qualified":
+                # a qualifier between a user-defined type (or its '*') and the name:  t_list *const<TAB>g_head = NULL;   t_x const<TAB>g_v = 0;
+                t, mem = self.struct_type()
+                if d.bool(0.6):
+                    ty = d.choice(["static ", ""]) + t + " *const"
+                    dec = [Lx(name, "id", ("decl-name", "global-name")), SP(), Lx("=", "op", ("asgop", "init")), SP(), Lx("NULL", "kw")]
+                else:
+                    ty = d.choice(["static ", ""]) + t + " " + d.choice(["const", "volatile"])
+                    dec = [Lx(name, "id", ("decl-name", "global-name"))]
+                    if ty.endswith("const"):
+                        dec += [SP(), Lx("=", "op", ("asgop", "init")), SP(), Lx("{", "brace", ("init-brace",)), Lx("0", "num", ("const:dec",)), Lx("}", "brace", ("init-brace",))]
+                self.tag("global:utype-qualified")
             elif k == "array2d-init":
                 ty = q + d.choice(["int", "char", "long"])
                 row = lambda: [Lx("{", "brace", ("init-brace",))] + self.constant(True) + [Lx(",", "comma"), SP()] + self.constant(True) + [Lx("}", "brace", ("init-brace",))]
@@ -1184,6 +1213,8 @@ class Gen:
                     [Lx("'z'", "chr"), SP(), Lx("-", "op", ("binop", "binop:-")), SP(), Lx("'a'", "chr"), SP(), Lx("+", "op", ("binop", "binop:+")), SP(), Lx("1", "num", ("const:dec",))],
                     [Lx("'Z'", "chr"), SP(), Lx("+", "op", ("binop", "binop:+")), SP(), Lx("1", "num", ("const:dec",))],
                     [Lx("sizeof", "kw"), Lx("(", "par"), Lx('"abc"', "str"), Lx(")", "par")],
+                    self.group_size(),
+                    self.group_size(),
                 ])
                 dec = [Lx(name, "id", ("decl-name", "global-name")), Lx("[", "br")] + size + [Lx("]", "br")]
                 self.tag("global:sized-array")
@@ -1617,7 +1648,8 @@ def _members(g, n):
             ty = d.choice(["char", "void", "int", "struct s_list"] if False else ["char", "void", "int", "unsigned char"])
             specs.append((ty, [Lx("*", "op", ("ptr-decl",)), Lx(name, "id", ("decl-name", "member-decl"))]))
         elif k == "array":
-            specs.append((d.choice(["char", "int"]), [Lx(name, "id", ("decl-name", "member-decl")), Lx("[", "br"), Lx(str(d.int(1, 256)), "num", ("const:dec",)), Lx("]", "br")]))
+            size = g.group_size() if d.bool(0.15) else [Lx(str(d.int(1, 256)), "num", ("const:dec",))]
+            specs.append((d.choice(["char", "int"]), [Lx(name, "id", ("decl-name", "member-decl")), Lx("[", "br")] + size + [Lx("]", "br")]))
         elif k == "fptr":
             specs.append((d.choice(["int", "void"]), [Lx("(", "par"), Lx("*", "op", ("ptr-decl",)), Lx(name, "id", ("decl-name", "member-decl")), Lx(")", "par"), Lx("(", "par")]
                           + g.ptypes() + [Lx(")", "par")]))
